@@ -29,6 +29,7 @@ type World struct {
 	SpecLines []string
 	SpecDir   string
 	LoadSecs  float64
+	GlobalFacts map[*ssa.Global]*GlobalFact
 }
 
 type smtSig struct {
@@ -129,6 +130,7 @@ func loadWorld(repo string, patterns []string, specDir string, overlay map[strin
 		}
 	}
 	w.scanSMTSigs(prelude)
+	w.computeGlobalFacts()
 	return w, nil
 }
 
